@@ -452,6 +452,58 @@ theorem ex_doFmt {B : Bits} {c : Ctx} {st : St} (m : FMode) (name : FName) (arr 
             · simp only [hz, if_false] at hsl; subst hsl; simp only at hl0 ⊢; omega
           | range off n => exact h1
 
+theorem ex_addChildren {B : Bits} {c : Ctx} : ∀ (vs : List T) (st : St), Ex B c st → (∀ v ∈ vs, exactKid B v = true) →
+    Ex B c (addChildren c st vs)
+  | [], _, h, _ => h
+  | v :: vs, st, h, hv => by
+    simp only [addChildren]
+    have h1 := ex_addChild h (hv v (by simp))
+    split
+    · exact ex_addChildren vs _ h1 (fun v' h' => hv v' (by simp [h']))
+    · exact h1
+
+theorem exactKids_of_exactIn {B : Bits} {t : T} (h : exactIn B t = true) : exactKids B t.kids = true := by
+  cases t with
+  | mk i kids => simp only [exactIn, Bool.and_eq_true] at h; exact h.2
+
+theorem ex_doInline {B : Bits} {c : Ctx} {st : St} (arr : Bool) (body : Body) (hb : BodyEx body)
+    (h : Ex B c st) : Ex B c (doInline arr body c st) := by
+  simp only [doInline]
+  generalize hsl : (if st.pos = 0 ∧ (c.buf.length : Int) - st.pos = 0 then ((0 : Int), (c.buf.length : Int)) else (st.pos, (c.buf.length : Int) - st.pos)) = sl
+  split
+  · exact ex_fail _ h
+  · rename_i hrange
+    simp only [not_or, Int.not_lt] at hrange
+    obtain ⟨hl0, hl1⟩ := hrange
+    have hs0 : 0 ≤ sl.1 := by
+      rw [← hsl]
+      split
+      · simp
+      · exact h.pos0
+    generalize hr : body { buf := slice c.buf sl.1.toNat sl.2.toNat, arr := arr, force := c.force } {} = r
+    have ih := hb (slice c.buf sl.1.toNat sl.2.toNat) { buf := slice c.buf sl.1.toNat sl.2.toNat, arr := arr, force := c.force } {}
+      ⟨⟨(slice c.buf sl.1.toNat sl.2.toNat).length, by simp⟩, by simp, rfl⟩
+    rw [hr] at ih
+    obtain ⟨mm, hm⟩ := h.pre
+    have hsec : IsSection B (slice c.buf sl.1.toNat sl.2.toNat) sl.1.toNat := by
+      rw [hm]
+      apply isSection_take
+      rw [← hm]; omega
+    split
+    · exact ex_fail _ h
+    · rename_i t ht
+      have hsnat : ((sl.1.toNat : Nat) : Int) = sl.1 := by omega
+      rw [← hsnat] at ht
+      have hx := finishDecode_exact B _ (.f 0) arr sl.1.toNat sl.2 false false 0 r hsec ih.kids t ht
+      split
+      · exact ex_fail _ h
+      · have h1 := ex_addChildren (c := c) t.kids { st with over := st.over || r.over } ⟨h.pre, h.pos0, h.kids⟩
+          ((exactKids_iff _ _).mp (exactKids_of_exactIn hx.1))
+        split
+        · exact h1
+        · have := hx.2.2.2.1 rfl
+          exact ⟨h.pre, by simp only; have := h.pos0; omega, h1.kids⟩
+
 theorem zeros_toNat (nbits : Nat) : zeros ((nbits : Int)).toNat = zeros nbits := by simp
 
 theorem ex_doFmtBuf {B : Bits} {c : Ctx} {st : St} (name : FName) (nbits : Nat) (arr : Bool) (body : Body) (hb : BodyEx body)
@@ -510,6 +562,7 @@ theorem exec_ex : ∀ (p : Prog), BodyEx (exec p)
   | .sub k n body => fun _ _ _ h => ex_doSub k n _ (execList_ex body) h
   | .seek abs x restore body => fun _ _ _ h => ex_doSeek abs x restore _ (execList_ex body) h
   | .fmt m name arr body => fun _ _ _ h => ex_doFmt m name arr _ (execList_ex body) h
+  | .inl arr body => fun _ _ _ h => ex_doInline arr _ (execList_ex body) h
   | .fmtBuf name nbits arr body => fun _ _ _ h => ex_doFmtBuf name nbits arr _ (execList_ex body) h
   | .rootFn arr name nbits body => fun _ _ _ h => ex_doRootFn arr name nbits _ (execList_ex body) h
   | .rootBuf name nbits => fun _ _ _ h => ex_doRootBuf name nbits h
